@@ -100,7 +100,7 @@ def run(chk, facts, tier):
     for fn in variants(facts, WQ + 'allocate_from_write_queue', chk):
         rets = [r for r in fn.returns() if ret_value(r) is not None and (cval(ret_value(r)) == 0 or ret_value(r).k == 'CXXNullPtrLiteralExpr')]
         conds = [i.child('cond') for r in rets for i, br in enclosing_ifs(r) if br == 'then']
-        ok = bool(rets) and any(mentions(c, 'current_client_') and mentions(c, fn.params[1]['n']) and any(as_binop(x) is not None and as_binop(x)[0] == '!=' and mentions(x, 'current_client_') and mentions(x, fn.params[1]['n']) for x in c.walk()) for c in conds)
+        ok = bool(rets) and any(mentions(c, 'current_client_') and mentions(c, fn.params[1]['n']) and any(as_binop(x) is not None and as_binop(x)[0] == '!=' and mentions(x, 'current_client_') and mentions(x, fn.params[1]['n']) for x in deep_walk(c)) for c in conds)
         st = [s for tgt, op, val, s in stores(fn.body) if is_name(tgt, 'current_client_')]
         ok = ok and len(st) == 1
         chk.instance('single-owner', fn, 'refuse when current_client_ != nullptr && current_client_ != &client', ok, '' if ok else 'a second client can append to a queue owned by another client', key='allocate')
